@@ -6,6 +6,3 @@ func genSites(repo string) (string, []string) {
 func genCodec(repo string) (string, []string) {
 	return "(* GENERATED — placeholder *)\n", nil
 }
-func genTables(repo string) (string, []string) {
-	return "(* GENERATED — placeholder *)\n", nil
-}
